@@ -171,9 +171,10 @@ func c19errString(err error) string {
 	return fmt.Sprintf("%T{%s}", err, err.Error())
 }
 
-// c19apply runs an op on a client and renders what the caller observed.
-func c19apply(cli *jrpc2.Client, op c19op) string {
-	ctx := context.Background()
+// c19apply runs an op on a client and renders what the caller observed:
+// one line per call, and for a batch one entry per response slot, in the order
+// Batch returns them (the order of the specs, notifications omitted).
+func c19apply(ctx context.Context, cli *jrpc2.Client, op c19op) string {
 	switch op.kind {
 	case 'c':
 		rsp, err := cli.Call(ctx, op.specs[0].Method, op.specs[0].Params)
@@ -199,6 +200,53 @@ func c19apply(cli *jrpc2.Client, op c19op) string {
 	return fmt.Sprintf("batch[%d]: %s", len(rsps), strings.Join(parts, " ; "))
 }
 
+// c19applyBounded runs an op in a goroutine of its own and settles the bubble.
+// None of the handlers of the equality workload waits for anything, so at
+// quiescence the op must have returned; if it has not, the client is blocked
+// waiting for a reply that will never come. That is reported (instead of
+// hanging the bubble), the op's context is cancelled to get the caller back,
+// and what it then returns is rendered for the comparison.
+func c19applyBounded(c *vt.Ctx, ctrl *sched.Controller, cli *jrpc2.Client, op c19op, where string, names []string) string {
+	ctx, cancel := context.WithCancel(context.Background())
+	defer cancel()
+	done := make(chan string, 1)
+	go func() { done <- c19apply(ctx, cli, op) }()
+	ctrl.Settle()
+	select {
+	case s := <-done:
+		return s
+	default:
+	}
+	c.Failf("ops %v: %s: op %s (%s) is still blocked when everything is quiescent (no handler waits): a reply that the caller waits for never arrives",
+		names, where, op.name, c19specString(op.specs))
+	c.Count("h_ops_blocked", 1)
+	cancel()
+	ctrl.Settle()
+	select {
+	case s := <-done:
+		return "BLOCKED until its context was cancelled, then " + s
+	default:
+	}
+	return "BLOCKED even after its context was cancelled"
+}
+
+func c19specString(specs []jrpc2.Spec) string {
+	var ss []string
+	for _, sp := range specs {
+		p := ""
+		if sp.Params != nil {
+			b, _ := json.Marshal(sp.Params)
+			p = " " + string(b)
+		}
+		k := "call"
+		if sp.Notify {
+			k = "note"
+		}
+		ss = append(ss, fmt.Sprintf("%s %q%s", k, sp.Method, p))
+	}
+	return "[" + strings.Join(ss, ", ") + "]"
+}
+
 func c19eqRun(c *vt.Ctx, ops []c19op) {
 	var names []string
 	for _, op := range ops {
@@ -211,8 +259,7 @@ func c19eqRun(c *vt.Ctx, ops []c19op) {
 		loc := server.NewLocal(recD, nil)
 		var obsD []string
 		for _, op := range ops {
-			obsD = append(obsD, c19apply(loc.Client, op))
-			ctrl.Settle()
+			obsD = append(obsD, c19applyBounded(c, ctrl, loc.Client, op, "direct connection", names))
 		}
 		if err := loc.Close(); err != nil {
 			c.Failf("direct: Local.Close: %v", err)
@@ -225,8 +272,7 @@ func c19eqRun(c *vt.Ctx, ops []c19op) {
 		cli := jrpc2.NewClient(ch, nil)
 		var obsH []string
 		for _, op := range ops {
-			obsH = append(obsH, c19apply(cli, op))
-			ctrl.Settle()
+			obsH = append(obsH, c19applyBounded(c, ctrl, cli, op, "HTTP channel", names))
 		}
 		if err := cli.Close(); err != nil {
 			c.Failf("http: Client.Close after %v: %v", names, err)
@@ -630,6 +676,10 @@ func c19casesH(e vt.Env, yield func(vt.Case) bool) bool {
 		}}) {
 			return false
 		}
+	}
+	// H/inv: batches with statically invalid members, direct vs HTTP.
+	if !c19casesInv(e, yield) || !c19casesRawInv(e, yield) {
+		return false
 	}
 	// H/fl: in-flight calls at Close, natural and perturbed schedules.
 	modes := []string{"close-first", "release-first", "partial"}
